@@ -25,6 +25,7 @@ macro_rules! for_props {
     ($m:ident) => {
         #[cfg(not(huginn_net_verif_sched))]
         {
+            $m!(props::c01::C01);
             $m!(props::c07::C07);
             $m!(props::c08::C08);
             $m!(props::c09::C09);
